@@ -94,6 +94,7 @@ func BuildRouterProject(c *orch.Ctx, l *lab.Lab, bin string, p *synth.Project, o
 		engines = synth.Engines
 	}
 	if opts.EnumValid {
+		ensureEnumTaggedBody(p)
 		// the experimental generated validators are only registered with this option: let model fields of a
 		// string enum type use them (tag <snake_case(enum)>_enum)
 		for si := range p.Structs {
@@ -331,4 +332,68 @@ func (r *ProbeRun) raceInGenerated(modPath string) []string {
 		}
 	}
 	return out
+}
+
+// ensureEnumTaggedBody makes sure that a project generated with generateEnumValidator has a request body whose
+// model carries a field of a string enum type with awkward constants (R&D, a<b>c, it's).
+func ensureEnumTaggedBody(p *synth.Project) {
+	var st *synth.Struct
+	for i := range p.Structs {
+		s := &p.Structs[i]
+		if !s.IsError && s.Name != "" && s.Name[0] >= 'A' && s.Name[0] <= 'Z' && (s.Pkg == "ctl" || s.Pkg == "models" || s.Pkg == "shared") {
+			st = s
+			break
+		}
+	}
+	if st == nil || p.Enum(st.Pkg, "Flavor") != nil {
+		return
+	}
+	for _, f := range st.Fields {
+		if f.GoName == "Flavor" {
+			return
+		}
+	}
+	// the body parameter first: only then is the shape worth adding
+	placed := false
+	for ci := range p.Controllers {
+		c := &p.Controllers[ci]
+		if c.Pkg != "ctl" && c.Pkg != st.Pkg {
+			continue
+		}
+		for mi := range c.Methods {
+			m := &c.Methods[mi]
+			if !m.IsEndpoint() || placed {
+				continue
+			}
+			hasBody, hasForm := false, false
+			for pi := range m.Params {
+				if m.Params[pi].In == "body" {
+					m.Params[pi].Type, m.Params[pi].Validate = synth.Named(st.Pkg, st.Name), ""
+					hasBody, placed = true, true
+				}
+				if m.Params[pi].In == "form" {
+					hasForm = true
+				}
+			}
+			if !hasBody && !hasForm && (m.Verb == "POST" || m.Verb == "PUT" || m.Verb == "PATCH") {
+				free := true
+				for _, pr := range m.Params {
+					if pr.GoName == "payload" {
+						free = false
+					}
+				}
+				if free {
+					m.Params = append(m.Params, synth.Param{GoName: "payload", In: "body", Type: synth.Named(st.Pkg, st.Name)})
+					placed = true
+				}
+			}
+		}
+	}
+	if !placed {
+		return
+	}
+	p.Enums = append(p.Enums, synth.Enum{Name: "Flavor", Pkg: st.Pkg, Base: "string", Values: []synth.EnumConst{
+		{Name: "FlavorRnD", Lit: `"R&D"`, Text: "R&D"}, {Name: "FlavorAngle", Lit: `"a<b>c"`, Text: "a<b>c"}, {Name: "FlavorQuote", Lit: `"it's"`, Text: "it's"}, {Name: "FlavorPlain", Lit: `"plain"`, Text: "plain"}}})
+	st.Fields = append(st.Fields, synth.Field{GoName: "Flavor", Type: synth.Named(st.Pkg, "Flavor"), JSONName: "flavor"})
+	p.SetFeature("body-model-with-awkward-string-enum")
 }
